@@ -49,8 +49,26 @@ def gen_scenario(R):
             block = (i, reqs[j]["id"], reqs[j]["method"])
     if close:
         block = None          # a call waiting for a reply that the stopped writer will never write would never return
+    # some connections fail instead: the peer closes / resets after a prefix of the bytes (any offset: before the init request,
+    # inside a line, between requests, after everything), or the k-th write raises
+    end, fail_write_at = None, None
+    if not close and R.random() < 0.3:
+        block = None
+        if R.random() < 0.6:
+            stream = "".join(chunks)
+            cut = R.choice([0, len(stream), R.randrange(0, len(stream) + 1), len(lines[0])])
+            out, left = [], cut
+            for c in chunks:
+                if left <= 0:
+                    break
+                out.append(c[:left])
+                left -= len(c)
+            chunks = out
+            end = R.choice(["eof", "reset"])
+        else:
+            fail_write_at = R.randrange(1, 9)
     return {"kind": "meta", "pool_arg": pool_arg, "pool": pool, "requests": reqs, "chunks": chunks,
-            "handler": R.choice(["absent", True, False]), "block": block, "close": close}
+            "handler": R.choice(["absent", True, False]), "block": block, "close": close, "end": end, "fail_write_at": fail_write_at}
 
 
 def run_real(scn, choose):
@@ -108,7 +126,8 @@ def run_real(scn, choose):
             sched.event("handler", sched.me().name, type(e).__name__)
             return scn["handler"]
         def handle_ioexception(self, e):
-            return False
+            sched.event("iohandler", sched.me().name, type(e).__name__)
+            return scn["handler"]
     srv = S.MetadataProviderServer(adapter, ("proxy", 6663), keep_alive=0, thread_pool_size=scn["pool_arg"])
     if scn["handler"] != "absent":
         srv.set_exception_handler(H())
@@ -124,10 +143,15 @@ def run_real(scn, choose):
     def main():
         srv.start()
 
+    sock.fail_write_at = scn.get("fail_write_at")
+
     def proxy():
         for c in scn["chunks"]:
             sched.park(("deliver", c))
             sock.inbound.append(c.encode("ascii"))
+        if scn.get("end"):
+            sched.park(("eoi",))
+            sock.in_eof = scn["end"]
     try:
         sched.spawn("M", main)
         sched.spawn("P", proxy)
@@ -169,7 +193,8 @@ LIB = re.compile(r"^(R|W|T\d+)$")
 
 def driver_lines(run):
     scn = run.scn
-    lines = ["cosim meta %d %s" % (run.pool_size, {"absent": "n", True: "t", False: "f"}[scn["handler"]])]
+    hk = {"absent": "n", True: "t", False: "f"}[scn["handler"]]
+    lines = ["cosim meta %d %s %s" % (run.pool_size, hk, hk)]
     chunks = run.chunks
     for n, ch in enumerate(chunks):
         tid, op = ch["tid"], ch["op"]
@@ -190,8 +215,12 @@ def driver_lines(run):
         elif kind == "aend":
             out = op[2]
             o = "aend " + ("R " + ari.py_tok(out[1]) if out[0] == "ret" else "E " + ari.exc_tok(out[1]))
+        elif kind == "send" and any(e[0] == "send-fails" for e in ch["events"]):
+            o = "sendfail"
         elif kind in ("recv", "get", "send"):
             o = kind
+        elif kind == "eoi":
+            o = "eoi"
         elif kind == "join":
             o = "join"
         elif kind == "pool-shutdown":
@@ -216,9 +245,15 @@ def driver_lines(run):
                 effs.append("sent:" + C.hx(e[1].decode("utf-8")))
             elif e[0] == "socket-close":
                 effs.append("sockclose")
+            elif e[0] == "iohandler":
+                effs.append("iohandler")
+            elif e[0] == "exit":
+                effs.append("exit")
         nxt = list(chunks[n + 1]["enabled"] if n + 1 < len(chunks) else run.final_enabled)
         # a task whose adapter call is held back by the environment is "inside the call" for the model
         nxt += [b for b in (chunks[n + 1].get("blocked", []) if n + 1 < len(chunks) else run.final_blocked) if b not in nxt]
+        if "exit" in effs:
+            nxt = []              # the process is gone
         en = ",".join(sorted((x for x in nxt if LIB.match(x)), key=lambda x: (0, 0) if x == "R" else (2, 0) if x == "W" else (1, int(x[1:]))))
         lines.append("km %s %s ; %s ; %s ; %s" % (tid, o, " ".join(effs), en, C.hx(ch["snap"])))
     return lines
@@ -250,6 +285,8 @@ def analyse(run):
 def oracle_c04(run, A, V):
     if run.status != "quiescent":
         return
+    if run.scn.get("end") or run.scn.get("fail_write_at"):
+        return            # the connection fails: requests may never arrive / the process may exit (C20's business)
     scn = run.scn
     for k, r in enumerate(scn["requests"]):
         tid = "T%d" % (k + 1)
@@ -261,8 +298,8 @@ def oracle_c04(run, A, V):
         shape = r["kind"] == "wrong" and not wrong and any(
             kd == "ret" and r["method"] in ("GIS", "GSC") and v and not isinstance(v, (list, tuple, str)) for kd, v in r["script"])
         want_h = 0 if scn["handler"] == "absent" else 1
-        if scn.get("close"):
-            # the connection is being closed by the Proxy Adapter (outside C04's quantifier): a task that finishes after the
+        if scn.get("close") or scn.get("end") or scn.get("fail_write_at"):
+            # the connection is being closed by the Proxy Adapter, or fails (outside C04's quantifier): a task that finishes after the
             # writer has stopped is not answered any more — every accepted task still runs to completion (C20), which the
             # dispatch checks below and the lock-step comparison cover
             pass
@@ -322,9 +359,42 @@ def oracle_c18(run, A, V):
             V("blocked-call-stops-server", "an adapter call waiting for the reply to a later request never returned although %d workers exist" % run.pool_size)
 
 
+def oracle_c20_fault(run, A, V):
+    """the connection fails: EOF / reset at some inbound offset, or the k-th write raises"""
+    scn = run.scn
+    ev = [(t, ch["tid"]) + tuple(e) for t, ch in enumerate(run.chunks) for e in ch["events"]]
+    ioh = [e for e in ev if e[2] == "iohandler"]
+    exits = [e for e in ev if e[2] == "exit"]
+    read_failed = [e for e in ev if e[2] in ("recv-eof", "recv-reset")]
+    write_failed = [e for e in ev if e[2] == "send-fails"]
+    nfail = (1 if read_failed else 0) + (1 if write_failed else 0)
+    h = scn["handler"]
+    if nfail == 0:
+        if ioh or exits:
+            V("spurious-io-report", "no read or write failed but the I/O handler / exit was invoked: %r" % (ioh + exits,))
+        return
+    if h == "absent" or h is True:
+        # the first failure is reported (to the handler if installed) and the process exits: nothing happens afterwards
+        if len(exits) != 1 or len(ioh) != (0 if h == "absent" else 1):
+            V("io-failure-reporting", "handler=%r, %d failing thread(s): %d handler notifications, %d exits (expected %d and 1)" % (
+                h, nfail, len(ioh), len(exits), 0 if h == "absent" else 1))
+        elif ev and ev[-1][2] != "exit" and any(e[0] > exits[0][0] for e in ev):
+            V("runs-after-exit", "library activity after the process exit")
+    else:
+        if exits or len(ioh) != nfail:
+            V("io-failure-reporting", "handler returns False, %d failing thread(s): %d handler notifications, %d exits (expected %d and 0)" % (
+                nfail, len(ioh), len(exits), nfail))
+    for e in ioh:
+        src = "R" if read_failed and e[1] == "R" else "W" if write_failed and e[1] == "W" else None
+        if src is None:
+            V("io-failure-wrong-thread", "I/O handler invoked from thread %s" % e[1])
+
+
 def oracle_c20(run, A, V):
     """an honoured close request (id 0, agreed version with close packets) as the last line of the connection"""
     scn = run.scn
+    if scn.get("end") or scn.get("fail_write_at"):
+        return oracle_c20_fault(run, A, V)
     if not scn.get("close"):
         return
     if run.status != "quiescent":
